@@ -346,7 +346,7 @@ def gen_s1(rng, c, keys, digests, size, basic="B", used=None):
                 return Miniscript("or_i", c, (sub("K"), sub("K")))
             return Miniscript("andor", c, (sub("B", 3), sub("K", 3), sub("K", 3)))
         if b == "W":
-            return Miniscript("a:", c, (go("B", sz - 1),))
+            return Miniscript(rng.choice(["a:", "a:", "s:"]), c, (go("B", sz - 1),))
         if b == "V":
             r = rng.choice(["v:"] * 3 + (["and_v", "or_c", "or_i", "andor"] if sz > 2 else []))
             if r == "v:":
@@ -361,7 +361,7 @@ def gen_s1(rng, c, keys, digests, size, basic="B", used=None):
         if sz <= 1:
             r = rng.choice(["c:", "c:", "c:", "1", "0", "hash"])
         else:
-            r = rng.choice(["c:", "n:", "and_v", "and_b", "or_b", "or_d", "or_i", "andor", "1", "0", "hash"])
+            r = rng.choice(["c:", "n:", "d:", "and_v", "and_b", "or_b", "or_d", "or_i", "andor", "1", "0", "hash"])
         if r in ("0", "1"):
             return Miniscript(r, c)
         if r == "hash":
@@ -371,6 +371,8 @@ def gen_s1(rng, c, keys, digests, size, basic="B", used=None):
             return Miniscript("c:", c, (go("K", sz - 1),))
         if r == "n:":
             return Miniscript("n:", c, (go("B", sz - 1),))
+        if r == "d:":
+            return Miniscript("d:", c, (Miniscript("v:", c, (Miniscript("1", c),)),))
         if r == "and_v":
             return Miniscript("and_v", c, (sub("V"), sub("B")))
         if r in ("and_b", "or_b"):
@@ -514,8 +516,8 @@ def run(ctx):
     produced = 0
     solver_left = ctx.n(500, 20000)
     exec_lines = []
-    S1 = {"0", "1", "pk_k", "pk_h", "sha256", "hash256", "ripemd160", "hash160", "c:", "v:", "a:", "n:", "and_v",
-          "and_b", "or_b", "or_c", "or_d", "or_i", "andor"}
+    S1 = {"0", "1", "pk_k", "pk_h", "sha256", "hash256", "ripemd160", "hash160", "c:", "v:", "a:", "s:", "n:", "d:",
+          "and_v", "and_b", "or_b", "or_c", "or_d", "or_i", "andor"}
     for n in spend_nodes[:ctx.n(150, 3000)]:
         text = str(n)
         in_s1 = set(G.histogram(n)) <= S1
@@ -539,8 +541,8 @@ def run(ctx):
                 ctx.check("solver", w, nontrivial=bool(r.get("produced")))
     ctx.stream("exec", exec_lines)
     ctx.note("T3/T4 are partial: covered_constructors = 0, 1, pk_k, pk_h, sha256, hash256, ripemd160, hash160, c:, v:, "
-             "a:, n:, and_v, and_b, or_b, or_c, or_d, or_i, andor (Props.C15.type_soundness_partial / "
-             "satisfaction_accepted_partial); not covered: s: d: j: older after multi multi_a thresh, the satisfier's choice and "
+             "a:, s:, n:, d:, and_v, and_b, or_b, or_c, or_d, or_i, andor (Props.C15.type_soundness_partial / "
+             "satisfaction_accepted_partial); not covered: j: older after multi multi_a thresh, the satisfier's choice and "
              "the soundness of the static bounds (bounds tables: `bounds` stream; actual spends: `spend` oracle)")
     ctx.note(f"spend oracle: {produced} satisfactions produced and run through the real engine (p2wsh and tapscript)")
     for n in nodes:
